@@ -85,6 +85,8 @@ fn main() {
         "c14_prune_select" => c14::prune_select(&v),
         "c14_pre_commit_skip" => c14::pre_commit_skip(&v),
         "c14_pre_commit_untracked" => c14::pre_commit_untracked(&v),
+        "c14_pre_commit_always" => c14::pre_commit_always(&v),
+        "c14_append_stores" => c14::append_stores(&v),
         "c15_comparator" => c15::comparator(&v),
         "c15_guards" => c15::guards(&v),
         "c07_journal_parse" => c07::journal_parse(&v),
